@@ -542,7 +542,8 @@ func Mime(value any, allowedTypes []string) bool {
 // matchString extracts a string from value and checks it against pattern.
 func matchString(value any, pattern *regexp.Regexp) bool {
 	str, ok := reflectx.StringVal(value)
-	if !ok {
+	if !ok || pattern == nil {
+		// a nil pattern matches nothing: the check fails instead of dereferencing it
 		return false
 	}
 	return pattern.MatchString(str)
